@@ -95,7 +95,7 @@ def run(prop, tier, apis=None):
         if cn_override is not None:
             cn = cn_override
         nat = native_replay(p["api"], effect, outcome, cn)
-        reproduced = any(r["exit"] not in (0, None) for r in nat)
+        reproduced = any(r["exit"] not in (0, None, 3) for r in nat)   # 3 = the native program has no scenario for this API
         key = f"{prop}:unwind:{p['api']}:{effect}:{outcome}:{p['exit']}"
         path = os.path.join(REPLAYS, prop, "unwind-%s.json" % hashlib.sha1((key + steps).encode()).hexdigest()[:10])
         art = {"engine": "unwind", "property": prop, "key": key, "api": p["api"], "function": p["fn"], "exit": p["exit"], "steps": p["steps"],
@@ -204,7 +204,7 @@ def replay(prop, art):
         return EXIT_OK
     a = art["native_replay"]["args"]
     nat = native_replay(*a)
-    rep = any(r["exit"] not in (0, None) for r in nat)
+    rep = any(r["exit"] not in (0, None, 3) for r in nat)
     log(f"[{prop}] native replay {a}: " + "; ".join(f"{r['profile']}: exit {r['exit']} {r['output'][-120:]}" for r in nat))
     if rep:
         log(f"VIOLATION property={prop} replay={art.get('how_to_replay', '')}")
